@@ -1118,8 +1118,10 @@ func (this *rolzCodec2) Forward(src, dst []byte) (uint, uint, error) {
 			delta = 3
 			flags |= 8
 		} else if dt == internal.DT_DNA {
+			// Same parameters as the decoder: longer matches, key from the previous 8 bytes
+			delta = 8
 			this.minMatch = _ROLZ_MIN_MATCH7
-			flags = 1
+			flags |= 4
 		}
 	}
 
